@@ -10,7 +10,7 @@ Local Open Scope Z_scope.
    assignment, move assignment and swap it is the source's exactly when the corresponding
    propagate_on_container_* trait is true.  (Each theorem also gives the value semantics
    used by C09.) *)
-Theorem C08_copy_construction : forall L, wf_plist L = true -> all_triv L = true ->
+Theorem C08_copy_construction : forall L, wf_plist L = true -> all_triv L = true -> all_ctriv false L = true ->
   forall K src l junk nb, Rep L src l ->
   let '(d, src', evs, nb') := copy_ctor K L src junk nb in
   Rep L d l /\ src' = src /\ v_aid d = soccc K (v_aid src) /\
@@ -18,7 +18,7 @@ Theorem C08_copy_construction : forall L, wf_plist L = true -> all_triv L = true
 Proof. exact copy_ctor_spec. Qed.
 Print Assumptions C08_copy_construction.
 
-Theorem C08_copy_assignment : forall L, wf_plist L = true -> all_triv L = true ->
+Theorem C08_copy_assignment : forall L, wf_plist L = true -> all_triv L = true -> all_ctriv false L = true ->
   forall K d src l junk nb, Rep L src l ->
   let '(d', src', evs, nb') := copy_assign K L d src junk nb in
   Rep L d' l /\ src' = src /\
